@@ -106,21 +106,111 @@ var plainParamName = regexp.MustCompile(`^\{[a-zA-Z0-9-_]+\}$`)
 
 const metaChars = `\+*?()|[]{}^$`
 
+// ---- the side conditions of the theorems, computed here on strings ----
+
+// urlPieces: what strings.Trim(u, "./") takes off on the left and on the right
+func urlPieces(u string) (lead, mid, trail string) {
+	d := strings.TrimLeft(u, "./")
+	lead = u[:len(u)-len(d)]
+	mid = strings.TrimRight(d, "./")
+	trail = d[len(mid):]
+	return
+}
+
+// urlClass: 1 = the request URL is spelled with leading '.' '/' (and the pattern
+// is not the lone wildcard), or with trailing '.' '/' that the expression cannot
+// absorb (it can when the pattern ends in a wildcard: no "$"; and when the last
+// part is a path parameter and only dots follow: "[^/]+$") — open finding F-C14c;
+// 2 = an empty URL part stands at a parameter position — open finding F-C14e;
+// 0 = neither
+func urlClass(pattern, u string) int {
+	pp := monSplit(pattern)
+	last := pp[len(pp)-1]
+	onlyWild := len(pp) == 1 && last.v == "*"
+	endsWild := last.v == "*"
+	lastPathParam := !last.host && isParamPart(last.v)
+	lead, _, trail := urlPieces(u)
+	leadOK := onlyWild || lead == ""
+	tailOK := endsWild || trail == "" || (lastPathParam && strings.Trim(trail, ".") == "")
+	if !(leadOK && tailOK) {
+		return 1
+	}
+	if emptyAtParam(pp, monSplit(u)) {
+		return 2
+	}
+	return 0
+}
+
+// kcAt: no configured pattern collides (host label vs path segment) with this
+// pattern on a trie node the look-up of u reads — the open finding F-C03c /
+// F-C14h localised to the selected filter and the request URL
+func kcAt(urls []string, pattern, u string) bool {
+	p, up := monSplit(pattern), monSplit(u)
+	for _, o := range urls {
+		q := monSplit(o)
+		for i := 0; i < len(up) && i < len(p) && i < len(q); i++ {
+			if stepKey(p[i]) != stepKey(q[i]) {
+				break
+			}
+			fits := isParamPart(p[i].v) && p[i].v != "*" || (p[i].v != "*" && !isParamPart(p[i].v) && p[i].v == up[i].v)
+			if !fits {
+				break
+			}
+			if p[i].host != q[i].host {
+				return false
+			}
+		}
+	}
+	return true
+}
+
+func sideClass(urls []string, pattern, u string) int {
+	if !kcAt(urls, pattern, u) {
+		return 3
+	}
+	return urlClass(pattern, u)
+}
+
+// probeClasses fills Probe.Classes (handed to the Coq model with the case)
+func probeClasses(k *FlowCase) {
+	urls := []string{}
+	byID := map[int]Flow{}
+	for _, f := range k.Flows {
+		urls = append(urls, f.URL)
+		byID[f.ID] = f
+	}
+	for i := range k.Probes {
+		p := &k.Probes[i]
+		p.Classes = []int{}
+		for _, id := range p.Selected {
+			p.Classes = append(p.Classes, sideClass(urls, byID[id].URL, p.URL))
+		}
+	}
+}
+
 // classifyBypass names the root cause of "engine selects, proxy does not manage".
+// cls = sideClass of (pattern, u) (for policies: 3 when any two declarations collide);
 // managedFn evaluates is_managed for another spelling of the URL.
-func classifyBypass(pattern string, methods []string, allURLs []string, m, u string,
+func classifyBypass(pattern string, methods []string, cls int, m, u string,
 	managedFn func(m, u string) bool) string {
-	if kindCollision(allURLs) {
+	if cls == 3 {
 		return "bypass:host-path-collision"
 	}
-	if t := strings.Trim(u, "./"); t != u {
+	if cls == 1 {
+		// the spelling is the cause when the trimmed spelling is managed; otherwise
+		// the trimmed spelling is judged on its own
+		t := strings.Trim(u, "./")
 		if managedFn(m, t) {
 			return "bypass:trailing-slash"
 		}
 		u = t
+		cls = urlClass(pattern, u)
+		if cls == 1 {
+			return "bypass:trailing-slash"
+		}
 	}
-	pp, up := monSplit(pattern), monSplit(u)
-	if emptyAtParam(pp, up) {
+	pp := monSplit(pattern)
+	if cls == 2 {
 		return "bypass:empty-segment"
 	}
 	// the verb is the cause when the same URL is managed for a default verb
@@ -187,7 +277,7 @@ func monitorFlows(o *c.Out, suite string, idx int, k *FlowCase) {
 				continue
 			}
 			f := byID[id]
-			sig := classifyBypass(f.URL, f.Methods, urls, p.Method, p.URL, managedFn)
+			sig := classifyBypass(f.URL, f.Methods, sideClass(urls, f.URL, p.URL), p.Method, p.URL, managedFn)
 			o.Hit(c.Hit{Suite: suite, Index: idx, Signature: sig,
 				Demanded: fmt.Sprintf("the engine selects filter %q %v for %s %s, so the proxy must treat %q as managed",
 					f.URL, f.Methods, p.Method, p.URL, p.Method+":::"+p.URL),
@@ -231,7 +321,11 @@ func monitorPolicies(o *c.Out, suite string, idx int, k *PolicyCase) {
 		for _, d := range k.Decls {
 			if d.Method == p.Method && declares(d, p) {
 				pat = d.URL
-				sig = classifyBypass(d.URL, []string{d.Method}, urls, p.Method, p.URL, managedFn)
+				cls := urlClass(d.URL, p.URL)
+				if kindCollision(urls) {
+					cls = 3
+				}
+				sig = classifyBypass(d.URL, []string{d.Method}, cls, p.Method, p.URL, managedFn)
 				break
 			}
 		}
@@ -271,6 +365,21 @@ func literalPattern(p string) bool {
 	return true
 }
 
+// literalWildPrefix: for a pattern of literal parts followed by a trailing
+// wildcard, the text of the literal parts
+func literalWildPrefix(p string) (string, bool) {
+	pp := monSplit(p)
+	if len(pp) < 2 || pp[len(pp)-1].v != "*" {
+		return "", false
+	}
+	for _, x := range pp[:len(pp)-1] {
+		if x.v == "*" || isParamPart(x.v) || x.v == "" {
+			return "", false
+		}
+	}
+	return joinParts(pp[:len(pp)-1]), true
+}
+
 func monitorExpr(o *c.Out, suite string, idx int, k *ExprCase) {
 	mini := func(s Subj) ExprCase {
 		kk := *k
@@ -283,31 +392,47 @@ func monitorExpr(o *c.Out, suite string, idx int, k *ExprCase) {
 			Observed: fmt.Sprintf("%q: %s", k.Go, k.CompileErr), Case: mini(Subj{})})
 		return
 	}
+	// literal parts in front of a trailing wildcard: the expression finds a subject
+	// exactly when it contains "METHOD:::" followed by their text (the proxy
+	// searches, and nothing is demanded of what the wildcard stands for)
+	if lit, ok := literalWildPrefix(k.URL); ok {
+		needle := k.Method + ":::" + lit
+		if k.AnyMethod {
+			needle = ":::" + lit
+		}
+		for _, s := range k.Subjects {
+			o.MonitorChecked(1)
+			has := strings.Contains(s.S, needle)
+			if s.Match && !has {
+				o.Hit(c.Hit{Suite: suite, Index: idx, Signature: "literal:over-match",
+					Demanded: fmt.Sprintf("literal characters of %q are matched literally: a subject without %q is not found", k.URL, needle),
+					Observed: fmt.Sprintf("%q finds %q", k.Go, s.S), Case: mini(s)})
+			}
+			if has && !s.Match {
+				o.Hit(c.Hit{Suite: suite, Index: idx, Signature: "literal:under-match",
+					Demanded: fmt.Sprintf("the expression for %q finds a subject containing %q", k.URL, needle),
+					Observed: fmt.Sprintf("%q does not find %q", k.Go, s.S), Case: mini(s)})
+			}
+		}
+		return
+	}
 	if k.AnyMethod || !literalPattern(k.URL) {
 		return
 	}
 	want := strings.Trim(k.URL, "./")
 	prefix := k.Method + ":::"
 	for _, s := range k.Subjects {
-		if !strings.HasPrefix(s.S, prefix) {
-			continue
-		}
-		u := s.S[len(prefix):]
-		if len(u) != len(want) {
-			continue
-		}
+		// the exact statement: found iff the subject ends with "METHOD:::URL"
 		o.MonitorChecked(1)
-		if u == want {
-			if !s.Match {
-				o.Hit(c.Hit{Suite: suite, Index: idx, Signature: "literal:under-match",
-					Demanded: fmt.Sprintf("the expression for %s %q finds its own URL", k.Method, k.URL),
-					Observed: fmt.Sprintf("%q does not find %q", k.Go, s.S), Case: mini(s)})
-			}
-			continue
+		ends := strings.HasSuffix(s.S, prefix+want)
+		if ends && !s.Match {
+			o.Hit(c.Hit{Suite: suite, Index: idx, Signature: "literal:under-match",
+				Demanded: fmt.Sprintf("the expression for %s %q finds its own URL", k.Method, k.URL),
+				Observed: fmt.Sprintf("%q does not find %q", k.Go, s.S), Case: mini(s)})
 		}
-		if s.Match {
+		if !ends && s.Match {
 			o.Hit(c.Hit{Suite: suite, Index: idx, Signature: "literal:over-match",
-				Demanded: fmt.Sprintf("literal characters of %q are matched literally: a URL of the same length that differs is not found", k.URL),
+				Demanded: fmt.Sprintf("literal characters of %q are matched literally: only a subject ending in %q is found", k.URL, prefix+want),
 				Observed: fmt.Sprintf("%q finds %q", k.Go, s.S), Case: mini(s)})
 		}
 	}
